@@ -93,6 +93,8 @@ def main(run: core.Run) -> None:
         items = docexp.corpus(docs.L_EDIT, 3, depth=1, modes=(True, False))
         d2 = docexp.corpus(docs.L_EDIT, 2, depth=2)
         run.bounds.update({'depth1': 'all docs <= 3 lines, both attribution modes', 'depth2': 'docs <= 2 lines'})
+    items += docexp.class_cases(1, level=('basic' if tier == 'quick' else 'full'))
+    run.bounds['class_corpus'] = 'one minimal and one full document per directive class (38 documents), depth 1'
     docexp.bfs(run, ORACLE, items, 'depth-1 corpus')
     docexp.bfs(run, ORACLE, d2, 'depth-2 corpus')
     # comment-attribution calls to a fixpoint per document (this is where a placeholder left behind its items shows)
